@@ -177,8 +177,9 @@ func (fst *FSTree) Query(q *query.Query, local, internal bool) (*iterator.Iterat
 	var walkRoot string
 	switch {
 	case err == nil && fileInfo.IsDir() &&
-		(q.DatabaseKeyPrefix() == "" || strings.HasSuffix(q.DatabaseKeyPrefix(), "/")):
-		// The key prefix names a directory: walk it.
+		(q.DatabaseKeyPrefix() == "" || strings.HasSuffix(q.DatabaseKeyPrefix(), "/") || walkPrefix == fst.basePath):
+		// The key prefix names a directory (or resolves to the database
+		// directory itself, above which a walk must never start): walk it.
 		walkRoot = walkPrefix
 	case err == nil && fileInfo.IsDir():
 		// The key prefix ends within a path segment: sibling entries of the
